@@ -168,7 +168,7 @@ SELECT
     NULL::VARCHAR AS "comment",
     NULL::VARCHAR AS "policy name",
     NULL::JSON AS "privacy domain",
-FROM information_schema._fs_columns_snowflake
+FROM ${view}
 WHERE table_catalog = '${catalog}' AND table_schema = '${schema}' AND table_name = '${table}'
 ORDER BY ordinal_position
 """
@@ -216,8 +216,13 @@ def describe_table(
             # information schema views don't exist in _fs_columns_snowflake
             return sqlglot.parse_one(SQL_DESCRIBE_INFO_SCHEMA.substitute(view=table.name), read="duckdb")
 
+        # read the view of the database the table is in: it is the one that knows the table's text lengths, and the
+        # session may not have a current database at all
+        view = "information_schema._fs_columns_snowflake"
+        if catalog:
+            view = f"{catalog}.{view}"
         return sqlglot.parse_one(
-            SQL_DESCRIBE_TABLE.substitute(catalog=catalog, schema=schema, table=table.name),
+            SQL_DESCRIBE_TABLE.substitute(view=view, catalog=catalog, schema=schema, table=table.name),
             read="duckdb",
         )
 
